@@ -39,6 +39,33 @@ CHECKS = {
     "C11": ("exhaustive enumeration of small networks x file formats x delimiters; write/read round trip on real files in a scratch directory",
             "Enumerated networks of the three classes (same families as C10, JSON-representable labels and attribute values, isolated nodes, empty edges, 1xm and nx1 incidence matrices) are written with write_hif / write_json / write_edgelist / write_bipartite_edgelist / write_incidence_matrix and read back under the documented casts with 6 delimiters (5 for the numpy-based matrix format), plus dual=True and HIF/JSON collections as list and dict; HIF/JSON compared as full networks (class, isolated nodes, empty edges, attributes), text formats by incidences.",
             "files live in a per-run temporary directory that is removed; multi-character delimiters are outside numpy.loadtxt's contract for the matrix format"),
+    "C12": ("exhaustive enumeration of small hypergraphs x full option grid; entry-by-entry comparison with brute-force matrices through the returned index maps",
+            "All hypergraphs over 3 labels <=3 edges and 4 labels <=2 edges (thorough: 4/<=3 and 5/2), each also with non-positional labels (string nodes inserted in reverse, decreasing gapped edge IDs) and edge weights {absent, all 1, in (0,1], some >1} x order {None,0,1,2,3} x s {1,2,3} x weighted x sparse x index x rescale_per_node x 4 order/weight lists: incidence, adjacency, degree vector, intersection profile, clique-motif matrix, adjacency tensor, order-d / multi-order / normalised Laplacians compared with brute-force constructions from members(); sparse == dense, index=True == index=False; zero row sums, symmetry, PSD. One known finding (D13, weighted normalised Laplacian with non-unit weights) is reported as KNOWN-FINDING.",
+            "float tolerance 1e-9; normalised Laplacian judged without isolated nodes / empty edges; empty index maps accepted only with all-zero matrices"),
+    "C13": ("exhaustive enumeration of all simplicial complexes on <=4 (thorough: 5) vertices x label kinds x orientation assignments; algebraic identities checked on every case",
+            "Every simplicial complex on <=4 labelled vertices (thorough adds all complexes using a 5th vertex) x label kinds (ints, strings, mixed int/str, explicit int and string simplex IDs for every simplex, reversed insertion) x orientation assignments (None, all 2^k when the complex has k <= 8 (thorough 10) oriented simplices, otherwise all-0 / all-1 / parity / single flips) x every order 0..dim+1: each column of B_k has exactly k+1 entries of absolute value 1 at the rows of its faces, B_k B_{k+1} = 0 exactly, shapes and index maps chain, Hodge Laplacians symmetric PSD and equal to B_k^T B_k + B_{k+1} B_{k+1}^T, dim ker L_0 = number of components (independent union-find).",
+            "matrices are integer-valued floats, products compared exactly"),
+    "C14": ("exhaustive enumeration of small hypergraphs x option grid; differential comparison with networkx on oracle-built graphs",
+            "All hypergraphs over 3 labels <=3 edges and 4 labels <=2 edges (thorough adds 4/<=3, 5/2, and 6 labels with 3 edges), a third also with string labels and reversed insertion, some with an empty edge, plus paths, cycles, nested edges and directed hypergraphs: components vs the node-edge bipartite graph, is_connected / count / largest / node component, shortest path lengths vs BFS in the clique expansion (symmetric, inf across components), clustering_coefficient vs nx.clustering of the projection, to_graph, to_line_graph (s in {1,2,3} x weights), to_bipartite_graph (types, links, direction, index maps), to_encapsulation_dag ('all', 'immediate' exact; 'empirical' sub-DAG).",
+            "networkx is the trusted independent oracle"),
+    "C15": ("exhaustive enumeration of all simple hypergraphs over 4 labels (<=3 / <=4 edges) and 5 labels; comparison with brute-force subset enumeration",
+            "All hypergraphs without repeated edges over 4 labels with <=3 (thorough <=4) edges and over 5 labels with 2 (thorough <=3) edges, a quarter also with string labels x min_size {1,2,3} x exclude_min_size x normalize: simplicial_edit_distance, simplicial_fraction, mean_face_edit_distance and the three scores against exhaustive enumeration over subsets of maximal edges; scores in [0,1] or NaN; the closure of every enumerated hypergraph as downward-closed input scores 1 or NaN.",
+            "labels orderable within one hypergraph"),
+    "C16": ("choice-point enumeration: randomized generators run under every complete outcome sequence of the owned random sources; deterministic generators over parameter grids; index decodings exhaustively",
+            "The harness owns random, numpy.random, geometric and networkx.fast_gnp_random_graph; for small parameter tuples every complete outcome sequence is executed (stateless DFS with prefix replay and divergence detection): fast_/random_hypergraph, uniform_erdos_renyi (both p_type, multiedges), uniform_HSBM/HPPM, configuration model, chung_lu, dcsbm, watts_strogatz, random_simplicial_complex, random flag complexes (all graphs on N<=4), flag_complex(ps), shuffle_hyperedges: node set, edge sizes, no repeats where forbidden, p=0 none / p=1 all, degrees not exceeded, downward closure, and the set of distinct outcomes equals the whole power set where the model makes every subset reachable. Deterministic generators over grids (complete, trivial, empty, ring_lattice, star_clique, sunflower under a 5 s alarm, flag_complex(_d2) on every graph with <=4 (thorough 5) vertices); index decodings for all n<=7 (9). A secondary pass with real seeds on larger parameters is reported separately.",
+            "random.random() is used only in threshold tests (two representative values); parameter tuples are small; seed pass is sampling and not what the claim rests on"),
+    "C17": ("exhaustive enumeration of seeded functions x parameter grid x seed menu x all perturbation sequences up to a length bound between two calls",
+            "Every public callable with a seed parameter (21, found by introspection) x parameter tuples x seeds {0, 42, 2^31-1, VERIF_SEED} (thorough: +1, 2) x pre-states x every sequence of length <=1 (thorough <=2) over 9 perturbations (draws from and re-seeding of the global Python / NumPy generators, other seeded xgi calls, the same function with another seed, a default_rng draw): the second result must equal the first exactly.",
+            "seed values are a menu; single process, single thread"),
+    "C18": ("explicit-state BFS over structural histories; at every state the whole introspected call menu is probed on an unfrozen copy and replayed on the frozen network",
+            "At every canonical state (depth 1 quick / 2 thorough from 14 initial states) frozen by freeze() and - for hypergraphs and complexes - produced by subhypergraph(), every call of the menu (all public methods by introspection with the C01-C03 argument menus, generic argument tuples for methods the menus do not mention, in-place library functions) is first applied to an unfrozen copy; a call that changes nodes, edges or memberships there must raise XGIError on the frozen network and leave its observable state unchanged; is_frozen before/after; copy() of a frozen network is equal and unfrozen.",
+            "mutators are discovered by probing, no list is kept; the automatic-ID counter is not part of the observable state"),
+    "C19": ("exhaustive enumeration of small networks x all flag combinations / node and edge selections / orders; comparison with brute-force constructions",
+            "All hypergraphs over 3 labels <=3 edges and 4 labels <=2 edges (thorough 4/<=3) with int, string and shuffled-int labels, attributes, a pre-existing 'label' attribute and empty edges: cleanup x 2^5 flags x in_place against the documented pipeline (any largest component / any duplicate representative accepted, un-relabelled through the recorded labels) plus the promised guarantees; convert_labels_to_integers; subhypergraph x every node subset x every edge subset x keep_isolates; dual and dual.dual; complement; cut_to_order x every order; largest_connected_hypergraph x in_place; H1 << H2 over 196 pairs; every simplicial complex on <=4 vertices x 2^3 cleanup flags, k_skeleton, from_max_simplices; directed hypergraphs x 2^2 cleanup flags.",
+            "cleanup(connected=True) with an empty residue is outside the domain"),
+    "C20": ("enumeration of small networks x layout functions and options x draw functions x max_order x hull x style-argument shapes; geometry of the returned matplotlib collections compared with the network",
+            "Hypergraphs (26 representatives and a stride through all hypergraphs over 4 labels with <=3 edges; int, string, shuffled labels) and the simplicial complexes on <=4 vertices: every layout function with its options returns exactly one finite 2-vector per node (bipartite layout also per edge), edge_positions_from_barycenters = mean; draw / draw_nodes / draw_hyperedges / draw_simplices on the Agg backend x max_order {None,1,2,3} x hull x style arguments as scalar / list / dict / stat: marker offsets = positions in node order, one segment per two-node edge, one polygon per larger edge up to max_order with exactly its members' positions; for complexes the maximal simplices of the truncated complex and its two-node simplices.",
+            "collections handed to matplotlib are checked, not pixels; quick tier strides through the families"),
 }
 
 NOT_APPLICABLE = []
